@@ -8,13 +8,15 @@
         same member order incl. duplicate keys, strings and literals byte-identical, each number lexeme l
         replaced by num_text l (which is C08's Number plus the JSON zero repair);
      json_keepnumbers_identity : with KeepNumbers every lexeme, numbers included, is byte-identical;
-     json_never_longer_refuted : "never longer than the input" is FALSE of the faithful model — witness 7E-3,
-        rendered 0.007 (known finding K48, replayed on the implementation by the check).
+     json_never_longer : the output is never longer than the compact rendering of the same tree with the original
+        number lexemes (so never longer than any text of that tree) — a THEOREM since the repair of K48 (7E-3 became
+        0.007: json.go now writes the original lexeme when the leading zero JSON requires would make the shortened one
+        longer); before the repair the faithful model refuted it with that witness.
    json_number_value / json_number_has_int_part: num_text l is in the number grammar, denotes the same rational as l and
    has an integer part (C08's number_exact composed with the zero repair).
    Not proved here: that the parser of the parse/v2 dependency delivers events_of v for every text of v
    (the harness checks this on every generated document: correspondence "json_tree"). *)
-From MV Require Import Base.MvBytes Num.NumModel Num.NumSpec Json.JsonModel Json.JsonSpec Json.JsonProofs Json.JsonNumber.
+From MV Require Import Base.MvBytes Num.NumModel Num.NumSpec Json.JsonModel Json.JsonSpec Json.JsonProofs Json.JsonNumber Json.JsonLength.
 
 Theorem json_structure_preserved : forall keepnumbers v, wf_jvalue v ->
   json_minify_events keepnumbers (events_of SValue v) = compact (num_text keepnumbers) v.
@@ -26,11 +28,16 @@ Theorem json_keepnumbers_identity : forall v, wf_jvalue v ->
 Proof. exact JsonProofs.json_keepnumbers_identity. Qed.
 Print Assumptions json_keepnumbers_identity.
 
-Theorem json_never_longer_refuted :
-  exists v, wf_jvalue v /\
-    (length (json_minify_events false (events_of SValue v)) > length (compact (fun l => l) v))%nat.
-Proof. exists (JNum [55; 69; 45; 51]). split; [reflexivity | vm_compute; lia]. Qed.
-Print Assumptions json_never_longer_refuted.
+Theorem json_never_longer : forall v, wf_jvalue v -> nums_ok v ->
+  (length (json_minify_events false (events_of SValue v)) <= length (compact (fun l => l) v))%nat.
+Proof. exact JsonLength.json_never_longer. Qed.
+Print Assumptions json_never_longer.
+
+(* the old counterexample is now kept as it is; the zero repair still fires where it does not lengthen *)
+Example json_never_longer_nonvacuous :
+  let v := JArr [JNum [55; 69; 45; 51]; JNum [48; 46; 53; 48; 48; 48]] in
+  wf_jvalue v /\ nums_ok v /\ json_minify_events false (events_of SValue v) = [91; 55; 69; 45; 51; 44; 48; 46; 53; 93].
+Proof. split; [simpl; tauto|]. split; [|vm_compute; reflexivity]. simpl. repeat split; try (eexists; vm_compute; reflexivity); vm_compute; congruence. Qed.
 
 (* the numbers: what is written for a number lexeme (Number(text, 0) + the repair of a leading ".") is in the number grammar,
    denotes exactly the same rational and has a digit before the dot as RFC 8259 requires (C08's number_exact composed
@@ -41,6 +48,7 @@ Proof. exact JsonNumber.json_number_value. Qed.
 Print Assumptions json_number_value.
 
 Theorem json_number_has_int_part : forall l p, lex_number l = Some p -> starts_number l = true -> zlen l <= 10 ^ 25 ->
+  match l with 46 :: _ => False | 45 :: 46 :: _ => False | _ => True end ->   (* JSON lexemes have an integer part; the fallback writes l itself *)
   match num_text false l with 46 :: _ => False | 45 :: 46 :: _ => False | _ => True end.
 Proof. exact JsonNumber.json_number_has_int_part. Qed.
 Print Assumptions json_number_has_int_part.
